@@ -947,19 +947,17 @@ theorem persistProbe (cfg : Cfg) (h : AccInv k) (fd : Nat) : AccInv (k.persistPr
     · rename_i t ht
       dsimp only
       split
-      · exact h
-      · split
-        · refine h.setSock hs rfl ?_
-          intro hfd t' ht'
-          simp only [Option.some.injEq] at ht'
-          subst ht'
-          exact h.old_state (t0 := t) hs ht hfd
-        · refine AccInv.emit ?_ _ _ _
-          refine h.setSock hs rfl ?_
-          intro hfd t' ht'
-          simp only [Option.some.injEq] at ht'
-          subst ht'
-          exact h.old_state (t0 := t) hs ht hfd
+      · refine h.setSock hs rfl ?_
+        intro hfd t' ht'
+        simp only [Option.some.injEq] at ht'
+        subst ht'
+        exact h.old_state (t0 := t) hs ht hfd
+      · refine AccInv.emit ?_ _ _ _
+        refine h.setSock hs rfl ?_
+        intro hfd t' ht'
+        simp only [Option.some.injEq] at ht'
+        subst ht'
+        exact h.old_state (t0 := t) hs ht hfd
 
 theorem checkRetx0 (cfg : Cfg) (h : AccInv k) : AccInv (Kernel.checkRetx0 cfg k) := by
   unfold Kernel.checkRetx0
